@@ -100,6 +100,15 @@ def first_node_of_reverse_axis(m, spec):
     return bool(hit)
 
 
+@matcher
+def round_returns_int(m, spec):
+    """Evaluate of an expression whose top-level operation is round() hands out a Go int."""
+    e = m["case"]["e"]
+    while e.get("t") == "filter" and not e.get("preds") and not e.get("steps"):
+        e = e["e"]
+    return e.get("t") == "call" and e.get("f") == "round" and m.get("got", {}).get("typ") == "int"
+
+
 # ----------------------------------------------------------------------
 def run_C01(run):
     q = run.tier == "quick"
@@ -286,6 +295,18 @@ def run_C16(run):
         run.mismatches.append(m)
 
 
+def run_C14(run):
+    q = run.tier == "quick"
+    run.gen_and_replay("MC_NS", {"MaxNodes": 3 if q else 4, "TestAxes": AXES}, name="ns-configs", kind="sel-set")
+
+
+def run_C15(run):
+    q = run.tier == "quick"
+    base = consts(BASE_EXPR, UseCat=False, UseVal=True)
+    run.gen_and_replay("MC_Expr", consts(base, Family="C15fn" if q else "C15fnwrap"), name="typed-functions", kind="noerr")
+    run.gen_and_replay("MC_Expr", consts(base, Family="C15ops"), name="typed-operators-axes-vars", kind="noerr")
+
+
 def run_C12(run):
     q = run.tier == "quick"
     # flat paths: exact document order; every node-set expression: protocol
@@ -348,6 +369,8 @@ PROPS = {
     "C04": {"run": run_C04},
     "C05": {"run": run_C05},
     "C12": {"run": run_C12},
+    "C14": {"run": run_C14},
+    "C15": {"run": run_C15},
     "C16": {"run": run_C16},
     "C11": {"run": run_C11},
     "C13": {"run": run_C13},
